@@ -15,7 +15,7 @@ from rsim.prf import Rng, digest
 PROP = "C09"
 LEVEL = "exploration"
 TIERS = {
-    "quick": {"cases": 330, "budget_s": 80, "batch": 64},
+    "quick": {"cases": 560, "budget_s": 150, "batch": 64},
     "thorough": {"cases": 8000, "budget_s": 900, "batch": 64},
 }
 RULE = (
